@@ -81,8 +81,11 @@ package basestreamseeder
 //@   loop 2 modifies s.sessions[*]
 //@   loop 2 invariant seedinv(s) && 0 <= _k && _k <= len(_range)
 //@   loop 2 invariant [onlypeer] forall(k sessionIDAndPeer, atentry(has(s.sessions, k)) && !has(s.sessions, k) ==> k.peer == peerID)
+//@   at call workers.Workers).Enqueue[1] requires [sender] session.senderI == s.sessions[mk("sessionIDAndPeer", op.request.Session.ID, op.peer.ID)].senderI
 //@   at call workers.Workers).Enqueue[1] requires [cursor] session.next == gIncRes && gIncArg == lastKey
 //@   at call workers.Workers).Enqueue[1] requires [donemark] resp.Done == session.done && resp.SessionID == op.request.Session.ID && has(s.sessions, mk("sessionIDAndPeer", op.request.Session.ID, op.peer.ID)) && s.sessions[mk("sessionIDAndPeer", op.request.Session.ID, op.peer.ID)].done == resp.Done
 //@   loop 3 modifies s.sessions[*], s.pendingResponsesSize, gIncArg, gIncRes
 //@   loop 3 invariant seedinv(s) && op != nil && sok(s, session)
 //@   loop 3 invariant [keeps] forall(k sessionIDAndPeer, atentry(has(s.sessions, k)) ==> has(s.sessions, k))
+//@   loop 3 invariant [others] forall(k sessionIDAndPeer, atentry(has(s.sessions, k)) && k != mk("sessionIDAndPeer", op.request.Session.ID, op.peer.ID) ==> s.sessions[k].senderI == atentry(s.sessions[k].senderI))
+//@   loop 3 invariant [sid] session.senderI == atentry(session.senderI) && (has(s.sessions, mk("sessionIDAndPeer", op.request.Session.ID, op.peer.ID)) ==> s.sessions[mk("sessionIDAndPeer", op.request.Session.ID, op.peer.ID)].senderI == session.senderI)
